@@ -187,6 +187,22 @@ func (c *EvalCtx) lookup(name string) (Val, bool) {
 			return v, true
 		}
 	}
+	if c.frame != nil && c.p != nil && c.frame.depth > 0 {
+		// a clause of the verified function evaluated inside an inlined helper (loop invariants that followed their
+		// loop into an extracted function): the callers' locals are still in scope for it
+		for i := len(c.p.frames) - 1; i >= 0; i-- {
+			fr := c.p.frames[i]
+			if fr == c.frame || fr.depth >= c.frame.depth {
+				continue
+			}
+			if v, ok := fr.names[name]; ok {
+				if v.K == KAddr {
+					return c.x.load(c.p, c.snap(), v.A), true
+				}
+				return v, true
+			}
+		}
+	}
 	if !c.noRename && c.x != nil {
 		// the source may spell the identifier differently than when the contract was written (see locals.go)
 		fn := c.x.fn
@@ -620,7 +636,7 @@ func (c *EvalCtx) evalCall(e *ECall) Val {
 		}
 		return Val{K: KScalar, T: types.Typ[types.Float64], S: toReal(v.S), Sort: "Real"}
 	case "calls":
-		key := callKeyOf(e.Args[0])
+		key := c.callKey(e.Args[0])
 		n := 0
 		for _, ev := range c.events {
 			if eventMatches(ev.Key, key) {
@@ -630,7 +646,7 @@ func (c *EvalCtx) evalCall(e *ECall) Val {
 		return intVal(fmt.Sprint(n))
 	case "panicked":
 		// panicked(key): some call matching key on this path ended in a panic
-		key := callKeyOf(e.Args[0])
+		key := c.callKey(e.Args[0])
 		for _, ev := range c.events {
 			if eventMatches(ev.Key, key) && ev.Panics {
 				return boolVal("true")
@@ -639,7 +655,7 @@ func (c *EvalCtx) evalCall(e *ECall) Val {
 		return boolVal("false")
 	case "callarg", "callres":
 		// callarg(key, k, i): i-th argument of the k-th (0-based) call matching key
-		key := callKeyOf(e.Args[0])
+		key := c.callKey(e.Args[0])
 		k := atoi(e.Args[1].String())
 		i := atoi(e.Args[2].String())
 		n := 0
@@ -661,7 +677,7 @@ func (c *EvalCtx) evalCall(e *ECall) Val {
 		return Val{K: KScalar, S: eng.fresh("undef", "Int"), Sort: "Int", Undef: true}
 	case "before":
 		// before(a, b): every call of a precedes every call of b on this path
-		ka, kb := callKeyOf(e.Args[0]), callKeyOf(e.Args[1])
+		ka, kb := c.callKey(e.Args[0]), c.callKey(e.Args[1])
 		lastA, firstB := -1, -1
 		for i, ev := range c.events {
 			if eventMatches(ev.Key, ka) {
@@ -676,7 +692,7 @@ func (c *EvalCtx) evalCall(e *ECall) Val {
 		}
 		return boolVal("false")
 	case "holds":
-		key := callKeyOf(e.Args[0])
+		key := c.callKey(e.Args[0])
 		for k := range c.p.locks {
 			if lockLabelMatches(k, key) {
 				return boolVal("true")
@@ -970,6 +986,17 @@ func atoi(s string) int {
 	n := 0
 	fmt.Sscanf(s, "%d", &n)
 	return n
+}
+
+// callKey: the call key of a clause, with its leading identifier following a renamed receiver / parameter / local.
+func (c *EvalCtx) callKey(e Expr) string {
+	k := callKeyOf(e)
+	if c.x != nil && c.x.fn != nil {
+		if ren := c.x.e.renamesOf(c.x.fn); len(ren) > 0 {
+			k = renameLabel(k, ren)
+		}
+	}
+	return k
 }
 
 func callKeyOf(e Expr) string {
